@@ -10,6 +10,14 @@
 
   Kinds modelled: Future (three kinds of provider), ConstFuture, ErrorFuture, AsyncTask whose body does not block.
   Batches, batch items and blocking tasks are NOT kinds of this model (their completion paths are C11 / the core machine).
+
+  Debug options switched while the future is in flight (`Op.option`): COLLECT_PERF_STATS makes `AsyncTask._computed` run
+  `collect_perf_stats()` between "outcome stored" and "subscribers notified".  That step calls `to_str()`, which needs the
+  profiler id `_id` - a pure-Python AsyncTask only has one if profiling was on when it was CREATED, the compiled class
+  always - and the repr() of the task's arguments (an exception other than RuntimeError from there escapes).  Whether the
+  step can run for this task is the creation-time fact `Cfg.statsOk`.  If it cannot, it raises - inside a try/finally whose
+  finally notifies the subscribers, so the exception reaches whoever completes the task AFTER everybody was notified
+  (`hookExc`).
 -/
 namespace AsynqModel.Futures
 
@@ -34,6 +42,7 @@ inductive Exc where
   | alreadyComputed     -- FutureIsAlreadyComputed
   | notSubscribed       -- ValueError of `on_computed.unsubscribe(h)` for a handler that is not subscribed (list.remove)
   | notImplemented      -- FutureBase._compute of a future without provider (ConstFuture after reset_unsafe)
+  | hook                -- what AsyncTask.collect_perf_stats raised (AttributeError: no `_id` / the error of an argument's repr)
   | other               -- anything else (never produced by the model; lets the driver parse any observation)
   deriving Repr, DecidableEq, Inhabited
 
@@ -57,6 +66,12 @@ inductive Beh where
 
 abbrev Sub := Nat × Beh
 
+/-- the debug options that sit on the completion path (`_debug.options`) -/
+inductive DbgOpt where
+  | perfStats      -- COLLECT_PERF_STATS: AsyncTask._computed calls collect_perf_stats() before the subscribers are notified
+  | dumpComputed   -- DUMP_COMPUTED: FutureBase._computed writes a line before the subscribers are notified
+  deriving Repr, DecidableEq, Inhabited
+
 inductive Op where
   | value | error | call | isComputed
   | setValue (v : Nat) | setError (e : Nat)
@@ -64,12 +79,22 @@ inductive Op where
   | reset
   | subscribe (id : Nat) (beh : Beh)
   | unsubscribe (id : Nat)
+  | option (o : DbgOpt) (on : Bool)   -- `asynq.debug.options.<o> = on` while the future exists
+  | raiseIfError         -- `raise_if_error()`: raises the stored error, NEVER computes
+  | inspect              -- `repr(f)` / `str(f)`: describes the future, never computes
+  deriving Repr, DecidableEq, Inhabited
+
+/-- how the future was created / what was switched on at that moment -/
+structure Cfg where
+  statsOk : Bool := true  -- AsyncTask: collect_perf_stats() can run: the task has a profiler id (`_id`: compiled build, or
+                          -- COLLECT_PERF_STATS on at creation) and repr() of its arguments does not raise
+  perf : Bool := false    -- COLLECT_PERF_STATS at creation
   deriving Repr, DecidableEq, Inhabited
 
 def Op.name : Op → String
   | .value => "value" | .error => "error" | .call => "call" | .isComputed => "isComputed"
   | .setValue _ => "setValue" | .setError _ => "setError" | .setErrorNone => "setErrorNone" | .reset => "reset" | .subscribe _ _ => "subscribe"
-  | .unsubscribe _ => "unsubscribe"
+  | .unsubscribe _ => "unsubscribe" | .option _ _ => "option" | .raiseIfError => "raiseIfError" | .inspect => "inspect"
 
 /-- one notification: which subscriber, the outcome it could read from the future at that moment, and (re-entrant
     subscribers) what its own attempt to complete the future again resulted in -/
@@ -85,6 +110,8 @@ structure Fut where
   subs : List Sub              -- on_computed.handlers, in subscription order
   runs : Nat                   -- how often the provider / task body ran
   alive : Bool                 -- AsyncTask: `_generator is not None`
+  statsOk : Bool := true       -- AsyncTask: `to_str()` works (`_id` exists - AsyncTask.__init__ sets it only `if COLLECT_PERF_STATS` -, args have a repr)
+  perf : Bool := false         -- `_debug.options.COLLECT_PERF_STATS` right now
   deriving Repr, DecidableEq, Inhabited
 
 /-- what a read-only observer records after every operation -/
@@ -104,12 +131,12 @@ def Kind.isTask : Kind → Bool
   | .taskOk _ | .taskErr _ => true
   | _ => false
 
-def init (k : Kind) : Fut :=
+def init (k : Kind) (c : Cfg := {}) : Fut :=
   match k with
-  | .const v => { kind := k, out := some (.val v), subs := [], runs := 0, alive := false }
-  | .error e => { kind := k, out := some (.err e), subs := [], runs := 0, alive := false }
-  | .errorNone => { kind := k, out := some (.val 0), subs := [], runs := 0, alive := false }
-  | _ => { kind := k, out := none, subs := [], runs := 0, alive := true }
+  | .const v => { kind := k, out := some (.val v), subs := [], runs := 0, alive := false, statsOk := c.statsOk, perf := c.perf }
+  | .error e => { kind := k, out := some (.err e), subs := [], runs := 0, alive := false, statsOk := c.statsOk, perf := c.perf }
+  | .errorNone => { kind := k, out := some (.val 0), subs := [], runs := 0, alive := false, statsOk := c.statsOk, perf := c.perf }
+  | _ => { kind := k, out := none, subs := [], runs := 0, alive := true, statsOk := c.statsOk, perf := c.perf }
 
 /-- `EventHook.unsubscribe` = `list.remove`: drops the FIRST handler with that identity -/
 def eraseSub : List Sub → Nat → List Sub
@@ -154,6 +181,20 @@ def complete (f : Fut) (o : Outc) : Fut × List Cb :=
   let stored : Fut := { f with out := some o, alive := false }
   ({ stored with subs := afterNotify f.subs }, f.subs.map (notifyOne stored))
 
+/-- AsyncTask._computed: `try: close the generator; if COLLECT_PERF_STATS: self.collect_perf_stats() finally:
+    FutureBase._computed(self)` - does the perf-stats step of THIS completion raise?  (to_str() needs `self._id`) -/
+def hookFails (f : Fut) : Bool := f.kind.isTask && f.perf && !f.statsOk
+
+/-- the exception that leaves `_computed` (and with it set_value / set_error / the scheduler / value()) AFTER the
+    finally clause has notified the subscribers -/
+def hookExc (f : Fut) : Option Exc := if hookFails f then some .hook else none
+
+/-- result of a `set_value` / `set_error` that was accepted -/
+def setRes (f : Fut) : Res :=
+  match hookExc f with
+  | some x => .raised x
+  | none => .unit
+
 /-- `_compute()` of an uncomputed future: new state, notifications, and the exception `_compute` lets escape -/
 def compute (f : Fut) : Fut × List Cb × Option Exc :=
   match f.kind with
@@ -170,19 +211,21 @@ def compute (f : Fut) : Fut × List Cb × Option Exc :=
     let (f', cbs) := complete { f with runs := f.runs + 1 } (.val v)
     (f', cbs, some .alreadyComputed)
   | .taskOk v =>
+    -- _continue: `except StopIteration: self._queue_exit(value)` -> set_value -> _computed; what _computed raises leaves
+    -- _continue, the scheduler and value()
     if f.alive then
       let (f', cbs) := complete { f with runs := f.runs + 1 } (.val v)
-      (f', cbs, none)
+      (f', cbs, hookExc f)
     else  -- generator already closed: _continue_on_generator raises StopIteration, value None
       let (f', cbs) := complete f (.val 0)
-      (f', cbs, none)
+      (f', cbs, hookExc f)
   | .taskErr e =>
     if f.alive then
       let (f', cbs) := complete { f with runs := f.runs + 1 } (.err e)
-      (f', cbs, none)
+      (f', cbs, hookExc f)
     else
       let (f', cbs) := complete f (.val 0)
-      (f', cbs, none)
+      (f', cbs, hookExc f)
 
 def readValue (o : Outc) : Res :=
   match o with
@@ -193,6 +236,11 @@ def readError (o : Outc) : Res :=
   match o with
   | .val _ => .errIs none
   | .err e => .errIs (some e)
+
+/-- `raise_if_error()` of a computed future -/
+def raiseRes : Outc → Res
+  | .err e => .raised (.user e)
+  | .val _ => .unit
 
 def step (f : Fut) (op : Op) : Fut × Res × List Cb :=
   match op with
@@ -222,15 +270,15 @@ def step (f : Fut) (op : Op) : Fut × Res × List Cb :=
   | .setValue v =>
     match f.out with
     | some _ => (f, .raised .alreadyComputed, [])
-    | none => let (f', cbs) := complete f (.val v); (f', .unit, cbs)
+    | none => let (f', cbs) := complete f (.val v); (f', setRes f, cbs)
   | .setError e =>
     match f.out with
     | some _ => (f, .raised .alreadyComputed, [])
-    | none => let (f', cbs) := complete f (.err e); (f', .unit, cbs)
+    | none => let (f', cbs) := complete f (.err e); (f', setRes f, cbs)
   | .setErrorNone =>   -- set_error(None): `_error = None; _value = None` - completed with the value None
     match f.out with
     | some _ => (f, .raised .alreadyComputed, [])
-    | none => let (f', cbs) := complete f (.val 0); (f', .unit, cbs)
+    | none => let (f', cbs) := complete f (.val 0); (f', setRes f, cbs)
   | .reset => ({ f with out := none }, .unit, [])
   | .subscribe id beh =>
     if f.kind.sinking then (f, .unit, []) else ({ f with subs := f.subs ++ [(id, beh)] }, .unit, [])
@@ -238,6 +286,15 @@ def step (f : Fut) (op : Op) : Fut × Res × List Cb :=
     if f.kind.sinking then (f, .unit, [])
     else if hasSub f.subs id then ({ f with subs := eraseSub f.subs id }, .unit, [])
     else (f, .raised .notSubscribed, [])
+  | .option o on =>    -- an assignment to `_debug.options`: nothing happens to the future
+    match o with
+    | .perfStats => ({ f with perf := on }, .unit, [])
+    | .dumpComputed => (f, .unit, [])
+  | .raiseIfError =>   -- `if self._error is not None: reraise(self._error)` - no `_compute()`
+    match f.out with
+    | some o => (f, raiseRes o, [])
+    | none => (f, .unit, [])
+  | .inspect => (f, .unit, [])   -- __repr__ / __str__ look at is_computed() first and only then at value() / error()
 
 def observe (f : Fut) (op : Op) : Fut × Obs :=
   let (f', r, cbs) := step f op
@@ -259,14 +316,24 @@ structure Watch where
   subs : List Sub              -- subscribers the observer registered (non-sinking futures), with what they do
   runs : Nat                   -- how often the provider / task body had run after the previous observation
   done : Bool                  -- a completion has been observed (an AsyncTask has then lost its generator for good)
+  statsOk : Bool := true         -- how the future was created (`Cfg`)
+  perf : Bool := false         -- COLLECT_PERF_STATS as the observer's own `option` operations left it
   deriving Repr, DecidableEq, Inhabited
 
-def watchInit (k : Kind) : Watch :=
+def watchInit (k : Kind) (c : Cfg := {}) : Watch :=
   match k with
-  | .const v => { known := some (.val v), subs := [], runs := 0, done := false }
-  | .error e => { known := some (.err e), subs := [], runs := 0, done := false }
-  | .errorNone => { known := some (.val 0), subs := [], runs := 0, done := false }
-  | _ => { known := none, subs := [], runs := 0, done := false }
+  | .const v => { known := some (.val v), subs := [], runs := 0, done := false, statsOk := c.statsOk, perf := c.perf }
+  | .error e => { known := some (.err e), subs := [], runs := 0, done := false, statsOk := c.statsOk, perf := c.perf }
+  | .errorNone => { known := some (.val 0), subs := [], runs := 0, done := false, statsOk := c.statsOk, perf := c.perf }
+  | _ => { known := none, subs := [], runs := 0, done := false, statsOk := c.statsOk, perf := c.perf }
+
+/-- may the operation that completes the future hand the exception of the failing perf-stats step to its caller?
+    (only an AsyncTask whose perf-stats step cannot run, completed while COLLECT_PERF_STATS is on; the statement says nothing about
+    what the completer gets then - C20 does - but outcome and notifications are judged as always) -/
+def hookMay (k : Kind) (w : Watch) : Bool := k.isTask && w.perf && !w.statsOk
+
+/-- the result of an accepted `set_value` / `set_error` -/
+def setResOk (k : Kind) (w : Watch) (r : Res) : Bool := r == .unit || (hookMay k w && r == .raised .hook)
 
 /-- the outcome the future's OWN computation (provider / task body) produces; none = the kind has no computation -/
 def Kind.natural : Kind → Option Outc
@@ -359,6 +426,14 @@ def watchStep (k : Kind) (w : Watch) (ob : Obs) : Except String Watch :=
     | .value | .call | .error =>
       if readOk ob.op ob.res o && ob.after == some o && ob.cbs.isEmpty then .ok w
       else .error "reads-stable"
+    | .raiseIfError =>
+      if ob.res == raiseRes o && ob.after == some o && ob.cbs.isEmpty
+      then .ok w else .error "reads-stable"
+    | .inspect =>
+      if ob.res == .unit && ob.after == some o && ob.cbs.isEmpty then .ok w else .error "reads-stable"
+    | .option d on =>
+      if ob.res == .unit && ob.after == some o && ob.cbs.isEmpty then
+        .ok { w with perf := if d == .perfStats then on else w.perf } else .error "option-changes-future"
   | none =>
     match ob.op with
     | .reset =>
@@ -377,16 +452,25 @@ def watchStep (k : Kind) (w : Watch) (ob : Obs) : Except String Watch :=
       if ob.runs != w.runs then .error "provider-once"
       else if ob.res == .bool false && ob.after == none && ob.cbs.isEmpty then .ok w
       else .error "reads-stable"
+    | .raiseIfError | .inspect =>
+      -- neither computes: the future stays uncomputed, nothing runs, nobody is notified
+      if ob.runs != w.runs then .error "provider-once"
+      else if ob.res == .unit && ob.after == none && ob.cbs.isEmpty then .ok w
+      else .error "reads-stable"
+    | .option d on =>
+      if ob.runs != w.runs then .error "provider-once"
+      else if ob.res == .unit && ob.after == none && ob.cbs.isEmpty then
+        .ok { w with perf := if d == .perfStats then on else w.perf } else .error "option-changes-future"
     | .setValue v =>
       if ob.runs != w.runs then .error "provider-once"
-      else if ob.res == .unit && ob.after == some (.val v) then
+      else if setResOk k w ob.res && ob.after == some (.val v) then
         if notifiedAll w.subs ob.cbs (.val v) then
           .ok { w with known := some (.val v), subs := afterNotify w.subs, done := true }
         else .error "notify-once"
       else .error "set"
     | .setError e =>
       if ob.runs != w.runs then .error "provider-once"
-      else if ob.res == .unit && ob.after == some (.err e) then
+      else if setResOk k w ob.res && ob.after == some (.err e) then
         if notifiedAll w.subs ob.cbs (.err e) then
           .ok { w with known := some (.err e), subs := afterNotify w.subs, done := true }
         else .error "notify-once"
@@ -395,7 +479,7 @@ def watchStep (k : Kind) (w : Watch) (ob : Obs) : Except String Watch :=
       -- `set_error(None)`: None is the library's "no error", the future is completed with the VALUE None - one
       -- consistent outcome all the same (error() = None, value() = None)
       if ob.runs != w.runs then .error "provider-once"
-      else if ob.res == .unit && ob.after == some (.val 0) then
+      else if setResOk k w ob.res && ob.after == some (.val 0) then
         if notifiedAll w.subs ob.cbs (.val 0) then
           .ok { w with known := some (.val 0), subs := afterNotify w.subs, done := true }
         else .error "notify-once"
@@ -405,7 +489,7 @@ def watchStep (k : Kind) (w : Watch) (ob : Obs) : Except String Watch :=
       | some o =>
         if ob.runs != w.runs && ob.runs != w.runs + 1 then .error "provider-once"
         else if !computeOk k w ob o then .error "compute-outcome"
-        else if !freshReadOk k ob.op ob.res o then .error "compute-read"
+        else if !(freshReadOk k ob.op ob.res o || (hookMay k w && ob.res == .raised .hook)) then .error "compute-read"
         else if !notifiedAll w.subs ob.cbs o then .error "notify-once"
         else .ok { w with known := some o, subs := afterNotify w.subs, done := true }
       | none =>
@@ -422,13 +506,13 @@ def watchRun (k : Kind) (w : Watch) : List Obs → Except String Watch
     | .error e => .error (e ++ "@" ++ ob.op.name)
 
 /-- `Spec.C10`: the whole history is accepted -/
-def spec (k : Kind) (obs : List Obs) : Bool :=
-  match watchRun k (watchInit k) obs with
+def spec (k : Kind) (obs : List Obs) (c : Cfg := {}) : Bool :=
+  match watchRun k (watchInit k c) obs with
   | .ok _ => true
   | .error _ => false
 
-def specClause (k : Kind) (obs : List Obs) : String :=
-  match watchRun k (watchInit k) obs with
+def specClause (k : Kind) (obs : List Obs) (c : Cfg := {}) : String :=
+  match watchRun k (watchInit k c) obs with
   | .ok _ => "ok"
   | .error e => e
 
